@@ -3,7 +3,8 @@ use crate::events::CircuitBreakerEvent;
 #[cfg(feature = "metrics")]
 use metrics::{counter, gauge, histogram};
 use std::collections::VecDeque;
-use std::sync::atomic::{AtomicU8, Ordering};
+use std::sync::atomic::{AtomicU64, AtomicU8, Ordering};
+use std::sync::Arc;
 use std::time::{Duration, Instant};
 
 /// Represents the state of the circuit breaker.
@@ -67,6 +68,45 @@ struct CallRecord {
     is_slow: bool,
 }
 
+const SLOT_MASK: u64 = 0xffff_ffff;
+
+/// A trial-call slot handed out while the circuit is half-open.
+///
+/// If the trial call is cancelled (its future dropped) before its outcome is recorded,
+/// dropping the slot gives it back so that the circuit cannot get stuck half-open with
+/// every slot taken by calls that will never report. Slots are tagged with the half-open
+/// epoch; a slot released after the circuit has moved on is ignored.
+pub(crate) struct TrialSlot {
+    slots: Arc<AtomicU64>,
+    epoch: u32,
+    armed: bool,
+}
+
+impl TrialSlot {
+    /// The trial call finished and its outcome is about to be recorded: keep the slot taken.
+    pub(crate) fn disarm(mut self) {
+        self.armed = false;
+    }
+}
+
+impl Drop for TrialSlot {
+    fn drop(&mut self) {
+        if !self.armed {
+            return;
+        }
+        let epoch = self.epoch;
+        let _ = self
+            .slots
+            .fetch_update(Ordering::AcqRel, Ordering::Acquire, |v| {
+                if (v >> 32) as u32 == epoch && v & SLOT_MASK > 0 {
+                    Some(v - 1)
+                } else {
+                    None
+                }
+            });
+    }
+}
+
 pub(crate) struct Circuit {
     state: CircuitState,
     state_atomic: std::sync::Arc<AtomicU8>,
@@ -83,6 +123,11 @@ pub(crate) struct Circuit {
     count_window: VecDeque<(bool, bool)>,
     // Successful trial calls since entering half-open
     half_open_successes: usize,
+    // Trial calls admitted since entering half-open: `epoch << 32 | admitted`
+    half_open_slots: Arc<AtomicU64>,
+    half_open_epoch: u32,
+    // Whether the most recent successful `try_acquire` admitted a half-open trial call
+    last_admission_was_trial: bool,
     // Time-based window tracking
     call_records: VecDeque<CallRecord>,
 }
@@ -115,7 +160,23 @@ impl Circuit {
             slow_call_count: 0,
             count_window: VecDeque::new(),
             half_open_successes: 0,
+            half_open_slots: Arc::new(AtomicU64::new(0)),
+            half_open_epoch: 0,
+            last_admission_was_trial: false,
             call_records: VecDeque::new(),
+        }
+    }
+
+    /// Returns the slot taken by the trial call that the last `try_acquire` admitted, if any.
+    pub(crate) fn take_trial_slot(&mut self) -> Option<TrialSlot> {
+        if std::mem::take(&mut self.last_admission_was_trial) {
+            Some(TrialSlot {
+                slots: Arc::clone(&self.half_open_slots),
+                epoch: self.half_open_epoch,
+                armed: true,
+            })
+        } else {
+            None
         }
     }
 
@@ -382,6 +443,7 @@ impl Circuit {
     }
 
     pub fn try_acquire<C>(&mut self, config: &CircuitBreakerConfig<C>) -> bool {
+        self.last_admission_was_trial = false;
         match self.state {
             CircuitState::Closed => {
                 config
@@ -396,6 +458,9 @@ impl Circuit {
             CircuitState::Open => {
                 if self.last_state_change.elapsed() >= config.wait_duration_in_open {
                     self.transition_to(CircuitState::HalfOpen, config);
+                    // This call is the first trial call of the new half-open period
+                    self.half_open_slots.fetch_add(1, Ordering::AcqRel);
+                    self.last_admission_was_trial = true;
                     config
                         .event_listeners
                         .emit(&CircuitBreakerEvent::CallPermitted {
@@ -415,9 +480,11 @@ impl Circuit {
                 }
             }
             CircuitState::HalfOpen => {
-                let permitted =
-                    self.success_count + self.failure_count < config.permitted_calls_in_half_open;
+                let admitted = (self.half_open_slots.load(Ordering::Acquire) & SLOT_MASK) as usize;
+                let permitted = admitted < config.permitted_calls_in_half_open;
                 if permitted {
+                    self.half_open_slots.fetch_add(1, Ordering::AcqRel);
+                    self.last_admission_was_trial = true;
                     config
                         .event_listeners
                         .emit(&CircuitBreakerEvent::CallPermitted {
@@ -503,6 +570,10 @@ impl Circuit {
 
         self.state = state;
         self.state_atomic.store(state as u8, Ordering::Release);
+        // New epoch: slots still held by calls admitted before this transition are void
+        self.half_open_epoch = self.half_open_epoch.wrapping_add(1);
+        self.half_open_slots
+            .store((self.half_open_epoch as u64) << 32, Ordering::Release);
         self.last_state_change = std::time::Instant::now();
         self.clear_counts();
     }
